@@ -145,7 +145,7 @@ class Contract:
                 if k not in have:
                     have[k] = shp.fresh(st, k)
                 vals[f"g_{k}"] = have[k]
-        vals["old"] = View({k: v.snapshot() for k, v in vals.items() if isinstance(v, (LRef, DRef, SObj))})
+        vals["old"] = View({k: v.snapshot() for k, v in vals.items() if isinstance(v, (LRef, DRef, SObj)) or hasattr(v, "py_version")})
         a = View(vals)
         where = f"call-pre@{f.ref.qualname}:{(site or '').split(':')[-1]}"
         pre = self.requires(self_obj, a) if self_obj is not None else self.requires(a)
@@ -568,7 +568,7 @@ class VerifyTask:
         setup = getattr(c, "setup", None)
         if setup is not None:
             setup(st, self_obj, vals)
-        vals["old"] = View({k: v.snapshot() for k, v in vals.items() if isinstance(v, (LRef, DRef, SObj))})
+        vals["old"] = View({k: v.snapshot() for k, v in vals.items() if isinstance(v, (LRef, DRef, SObj)) or hasattr(v, "py_version")})
         a = View(vals)
         inputs = {k: v for k, v in vals.items() if k != "old"}
         if self_obj is not None:
